@@ -330,6 +330,14 @@ v('C18', 'fire', T, 'if np.median(np.diff(first.index)) < np.median(np.diff(seco
 v('C18', 'silent', T, 'if np.median(np.diff(first.index)) < np.median(np.diff(second.index)):', 'if np.median(np.diff(second.index)) > np.median(np.diff(first.index)):', 'comparison written the other way round')
 
 
+v('C04', 'fire', E, '-util.skew_matrix(2 * Omega_n + rho_n)', '-util.skew_matrix(Omega_n + rho_n)', 'Coriolis factor 2 dropped')
+v('C04', 'fire', E, 'F[np.ix_(samples, self.DV, self.PHI)] = -util.skew_matrix(g_n)', 'F[np.ix_(samples, self.DV, self.PHI)] = util.skew_matrix(g_n)', 'sign of the gravity-tilt coupling')
+v('C04', 'fire', E, 'B_gyro[np.ix_(samples, self.PHI, [0, 1, 2])] = -mat_nb', 'B_gyro[np.ix_(samples, self.PHI, [0, 1, 2])] = mat_nb', 'gyro coupling sign')
+v('C04', 'fire', E, '        F[np.ix_(samples, self.DR, self.PHI)] = V_skew\n', '', 'velocity-attitude coupling of the position error dropped')
+v('C04', 'fire', E, 'util.mm_prod(R, V_skew))', 'util.mm_prod(V_skew, R))', 'operand order in the attitude block')
+v('C04', 'fire', E, '(-util.skew_matrix(rho_n + Omega_n) +', '(-util.skew_matrix(rho_n) +', 'Earth rate dropped from the attitude block')
+
+
 # ----------------------------------------------------------------------- runner
 def _run_variant(args):
     prop, var, root, check_py = args
